@@ -7,7 +7,9 @@ real prelude-loaded Context: accept/reject, the checker's own static type of the
 inputs that nothing was printed or defined.
 """
 import json
+import re
 import shutil
+from fractions import Fraction
 import nv
 from checks import typing_common as tc
 
@@ -35,6 +37,19 @@ def judge_stmt(text, spec_t, r, problems):
                 problems.append("static type: impl %s spec %s: %s" % (iv, tc.spec_vec(spec_t), text))
             if not tc.is_concrete(iv):
                 problems.append("static type: impl generic %s spec concrete %s: %s" % (iv, tc.spec_vec(spec_t), text))
+        # the REPORTED type: the annotation in the echoed definition `let v: <type> = ...` read back through the
+        # session's dimension names (every alternative of `A or B` must denote the predicted dimension)
+        echo = (r.get("echo") or [""])[0]
+        m = re.match(r"^let \w+: (.*?) = ", echo)
+        if m:
+            alts = tc.parse_printed_dimension(m.group(1))
+            want = {b: Fraction(n, d) for b, (n, d) in tc.spec_vec(spec_t).items()}
+            if alts is None:
+                problems.append("reported type %r is not a dimension expression: %s" % (m.group(1), text))
+            elif any(a != want for a in alts):
+                problems.append("reported type %r denotes %s, spec %s: %s" % (m.group(1), alts, want, text))
+        else:
+            problems.append("echo has no type annotation: %r" % echo[:80])
     elif spec_t["k"] == "bool":
         if not st or st.get("text") != "Bool":
             problems.append("static type: impl %s spec Bool: %s" % (st, text))
